@@ -179,8 +179,18 @@ def families(opts):
             rep('analysis-broken-by-marking:%s:%s' % (kind_tag, res.get('type')), {'issues': [i for i in res.get('analyse_issues', []) if i['level'] == 'ERROR'][:3]})
             return
         msgs = [i for i in res.get('analyse_issues', []) if i['level'] == 'MESSAGE']
+        primary = {}
+        for arr in ('states', 'variables'):
+            for e in res.get(arr, []):
+                primary[L.class_of(e['comp'], e['var'])] = (e['comp'], e['var'])
+        if special == 'twin':
+            x = m[0]
+            rf = L.ref(x[1], x[2])
+            if primary.get(x[1]) == (rf['comp'], rf['var']):
+                special = None  # the marked member IS the class's primary variable in the analyser's view: nothing to report
+                ctx.outcome('marked-twin-is-the-primary')
         if special and not msgs:
-            rep('C20:marking-%s-not-reported-with-a-message' % special)
+            rep('marking-%s-not-reported-with-a-message' % special)
         got = {}
         eqtype = {}
         for arr in ('states', 'variables'):
